@@ -116,6 +116,13 @@ class NPShim:
         if _has_sym(x):
             if isinstance(x, _np.ndarray):
                 return _np.array([NPShim.exp(e) for e in x], dtype=object)
+            if isinstance(x, S):
+                # exp(log(u)) = u : only inverse of an existing log atom is representable
+                c = real.cur()
+                for at in c.atoms.values():
+                    if at.fn == "log" and at.var.get_id() == x.t.get_id():
+                        w = real._eval_w(at.arg, c)
+                        return S(at.arg, w if w is not None else at.argw)
             raise real.NotEncodable("exp of symbolic value")
         return _np.exp(x)
 
